@@ -19,6 +19,23 @@ static void emit_inputs(const char *op, int per, double mn, double mx, long n, c
 static void stream(int per, double mn, double mx, long n, const Stream &s, bool norm) {
   emit_inputs(norm ? "norm" : "stream", per, mn, mx, n, s);
   tools::HistogramNew h;
+  // one stream in three goes into a histogram object that was used before: set up for another range / bin count / wrap mode and filled,
+  // or filled on the same grid and cleared — every stream must be binned as by a fresh object
+  static long reuse_ctr = 0;
+  ++reuse_ctr;
+  if (reuse_ctr % 3 == 0) {
+    if (reuse_ctr % 2) {
+      h.setPeriodic(!per);
+      h.Initialize(mn - 1.5, mx + 3.25, 2 * n + 3);
+      for (auto &vw : s) h.Process(vw.first * 0.5, 1.0);
+      h.Normalize();
+    } else {
+      h.setPeriodic(per);
+      h.Initialize(mn, mx, n);
+      for (auto &vw : s) h.Process(vw.first + 0.125, vw.second + 1.0);
+      h.Clear();
+    }
+  }
   h.setPeriodic(per);
   h.Initialize(mn, mx, n);
   for (auto &vw : s) h.Process(vw.first, vw.second);
